@@ -119,7 +119,7 @@ func GenAdmin(t *rapid.T, opt AdminOpt) Admin {
 			}
 		}
 		if invalid && len(a.Ids) > 0 && a.Protocol != "PROTOCOL_INTERNAL" {
-			a.Ids[rapid.IntRange(0, len(a.Ids)-1).Draw(t, "admin/badpos")] = pick(t, "admin/badid", badCpPool)
+			a.Ids[uniform(t, "admin/badpos", len(a.Ids))] = pick(t, "admin/badid", badCpPool)
 		}
 	case "pause_action", "unpause_action":
 		if invalid {
@@ -152,7 +152,7 @@ func GenEnv(t *rapid.T, opt EnvOpt) Env {
 		e.Amount = pick(t, "env/amount", []string{"1", "7", "1000", "999999999"})
 	case "reescrow":
 		e.User = pick(t, "env/user", PlainUsers)
-		e.Channel = rapid.IntRange(0, world.NumChannels-1).Draw(t, "env/channel")
+		e.Channel = uniform(t, "env/channel", world.NumChannels)
 		e.Denom = pick(t, "env/denom", AllDenoms)
 		if e.Denom == world.Uhuge {
 			e.Channel = 0
@@ -181,7 +181,7 @@ type HistOpt struct {
 func GenHistory(t *rapid.T, opt HistOpt) History {
 	total := opt.PacketW + opt.AdminW + opt.EnvW
 	step := rapid.Custom(func(t *rapid.T) Step {
-		x := rapid.IntRange(0, total-1).Draw(t, "step/kind")
+		x := uniform(t, "step/kind", total)
 		switch {
 		case x < opt.PacketW:
 			tr := opt.Packet(t)
@@ -194,5 +194,11 @@ func GenHistory(t *rapid.T, opt HistOpt) History {
 			return Step{Env: &e}
 		}
 	})
-	return rapid.SliceOfN(step, opt.MinSteps, opt.MaxSteps).Draw(t, "history")
+	// rapid's slice lengths cluster a few elements above the minimum; a share of the histories
+	// is forced to be long.
+	min := opt.MinSteps
+	if Chance(t, "history/long", 30) && opt.MaxSteps*2/3 > min {
+		min = opt.MaxSteps * 2 / 3
+	}
+	return rapid.SliceOfN(step, min, opt.MaxSteps).Draw(t, "history")
 }
